@@ -84,11 +84,12 @@ def finish(ctx, level, coverage):
     coverage = dict(coverage)
     coverage["known_findings_observed"] = sorted(v["key"] for v in ctx.violations if v["key"] in ctx.known)
     coverage["violation_keys"] = sorted(v["key"] for v in new)
+    coverage["violation_messages"] = {v["key"]: v["msg"][:400] for v in new[:200]}
     write_evidence(ctx, level, coverage, len(new))
     if not new:
         return 0
     os.makedirs(rdir, exist_ok=True)
-    for i, v in enumerate(new[:20]):
+    for i, v in enumerate(new[:200]):
         h = hashlib.sha1(v["key"].encode()).hexdigest()[:8]
         path = os.path.join(rdir, "%s-%s.json" % (ctx.pid, h))
         rep = dict(v["replay"])
@@ -98,8 +99,9 @@ def finish(ctx, level, coverage):
         with open(path, "w") as f:
             json.dump(rep, f, indent=1)
         print("VIOLATION property=%s replay=%s" % (ctx.pid, path))
-        print("  key=%s" % v["key"])
-        print("  " + v["msg"].replace("\n", "\n  ")[:1500])
+        if i < 20:
+            print("  key=%s" % v["key"])
+            print("  " + v["msg"].replace("\n", "\n  ")[:1500])
     return 1
 
 
